@@ -28,8 +28,8 @@ def main():
     for name, f, old, new, expect, forbid in MUTANTS:
         if only and name not in only:
             continue
-        shutil.rmtree(scratch, ignore_errors=True)
-        subprocess.check_call(['rsync', '-a', '--exclude', 'target', '--exclude', '.git', '/repo/', scratch + '/'])
+        os.makedirs(scratch, exist_ok=True)
+        subprocess.check_call(['rsync', '-a', '--delete', '--exclude', 'target', '--exclude', '.git', '--exclude', '.vf_replay', '/repo/', scratch + '/'])
         p = os.path.join(scratch, f)
         s = open(p).read()
         if old not in s:
